@@ -178,6 +178,15 @@ def main():
         return len(re.findall(r"\.unwrap\(\)|\.expect\(|panic!\(|unimplemented!\(|unreachable!\(|todo!\(", t))
     for f in ["bundle.rs", "primary.rs", "canonical.rs", "eid.rs", "crc.rs", "dtntime.rs", "administrative_record.rs", "flags.rs"]:
         facts.append(("panic_sites_" + f.replace(".rs", ""), "nat", panic_sites(f) if src(f) else None))
+    # ---- C12: administrative records
+    txt("ser_admin", ser_elems(adm, "AdministrativeRecord"))
+    txt("ser_status_report", ser_elems(adm, "StatusReport"))
+    txt("ser_status_item", ser_elems(adm, "BundleStatusItem"))
+    nat("adm_report_type_code", adm, r"BUNDLE_STATUS_REPORT_TYPE_CODE: AdministrativeRecordTypeCode = (\d+);")
+    nat("adm_max_status_pos", adm, r"MAX_STATUS_INFORMATION_POS: u32 = (\d+);")
+    nb3 = fn_body(adm, "new_status_report_bundle") or ""
+    m = re.search(r"PrimaryBlockBuilder::default\(\)(.*?)\.build\(\)", nb3, flags=re.S)
+    txt("adm_report_bundle_builder", re.sub(r"\s+", "", m.group(1)) if m else None)
     # ---- emit
     lines = ["/- GENERATED by tools/extract.py from /repo/src — do not edit. -/", "namespace Bp7.Extracted", ""]
     for name, kind, v in facts:
